@@ -169,7 +169,8 @@ fn hammer(threads: usize, rounds: usize, per: usize, seed: u64) -> Vec<(u32, Vec
 pub fn run(ctx: &mut Ctx) {
     // the zero-crossing hammer first
     // (spinning threads: only two shards run it, with few threads, so that the machine is not oversubscribed by the gate itself)
-    let hammer_rounds = if ctx.thorough() { 400_000 } else { 30_000 };
+    // (under Miri threads are interleaved by the interpreter and a spin gate costs seconds per round: a token number of rounds)
+    let hammer_rounds = if cfg!(miri) { 12 } else if ctx.thorough() { 400_000 } else { 30_000 };
     if ctx.want(8_000_000_000) && ctx.args.shard < 2 {
         let mut rng = ctx.rng(8_000_000_000);
         let threads = *rng.pick(&[3usize, 4]);
